@@ -584,8 +584,19 @@ def match_candidates_sample(
         cost_matrix_np = cost_matrix.numpy()
         cost_matrix_np[np.isnan(cost_matrix_np)] = np.inf
 
-        # Match.
-        match_src_inds, match_dst_inds = linear_sum_assignment(cost_matrix_np)
+        # Match. Candidates without a finite score (e.g., a source and a destination
+        # peak detected on the same pixel give a NaN line score) are given a large
+        # finite cost so that the assignment problem stays feasible; such pairs are
+        # only picked when unavoidable and are dropped from the matches afterwards.
+        is_finite = np.isfinite(cost_matrix_np)
+        assignment_costs = cost_matrix_np
+        if not is_finite.all():
+            sentinel_cost = 1.0 + 2.0 * np.abs(cost_matrix_np[is_finite]).sum()
+            assignment_costs = np.where(is_finite, cost_matrix_np, sentinel_cost)
+        match_src_inds, match_dst_inds = linear_sum_assignment(assignment_costs)
+        is_valid = is_finite[match_src_inds, match_dst_inds]
+        match_src_inds = match_src_inds[is_valid]
+        match_dst_inds = match_dst_inds[is_valid]
 
         # Pull out matched scores from the numpy cost matrix.
         match_line_scores_k = -cost_matrix_np[
